@@ -225,6 +225,8 @@ class HoldAnalysis(RuleAnalysis):
         while isinstance(t, ast.UnaryOp) and isinstance(t.op, ast.Not):
             neg = not neg
             t = t.operand
+        if isinstance(t, ast.NamedExpr) and isinstance(t.target, ast.Name):
+            t = t.target  # `if not (chunk := await recv()):` tests the value just bound
         name = None
         empty_when_false = False
         # a count compared with a constant, in any spelling: which side means "nothing was read" (count <= 0)?
